@@ -13,39 +13,6 @@ use crate::props::common::*;
 use crate::rng::Rng;
 use crate::scenario::*;
 
-/// Sampling restriction: a link that re-enters an ancestor *above* the directory the walk starts
-/// in (the invariant prefix of the glob) is not an ancestor on the walked path; whether it counts
-/// as "one of its ancestors" is ambiguous, so such draws are not sampled.
-/// (`Glob::partition` decides what to sample, never what to judge.)
-pub fn cycle_above_prefix(model: &Model, w: &Walker) -> bool {
-    let Source::Glob { expr, rooted } = &w.source
-    else {
-        return false;
-    };
-    let text = crate::exec::glob_text(expr, *rooted, DUMMY_ROOT);
-    let Ok(glob) = wax::Glob::new(&text)
-    else {
-        return false;
-    };
-    let (prefix, _) = glob.partition();
-    let prefix = prefix.to_string_lossy().into_owned();
-    let start: Option<String> = if *rooted {
-        prefix.strip_prefix(DUMMY_ROOT).map(|r| r.trim_matches('/').to_string())
-    }
-    else {
-        crate::exec::to_world(&format!("{}/{}/{}", R, w.base, prefix), "")
-    };
-    let Some(start) = start
-    else {
-        return true;
-    };
-    let space = Space::of(w, DUMMY_ROOT);
-    model
-        .traverse(&space.start, Link::ReadTarget, None)
-        .iter()
-        .any(|v| matches!(&v.fault, Some(Fault::Cycle { ancestor }) if !is_under(ancestor, &start) ) && is_under(&v.path, &start))
-}
-
 pub fn depth_behaviour(g: &mut Gen, deepest: usize, prefix_len: usize) -> Depth {
     let hi = deepest + 2;
     match g.rng.below(12) {
